@@ -823,7 +823,7 @@ func Run(o Options) report.Run {
 }
 
 var probeNames = []string{simrt.PLockContended: "sched.lock_contended", simrt.PClockRead: "clock.reads", simrt.PSleep: "sleep.parked", simrt.PMapRange: "map.range_shuffled",
-	simrt.PChanRecvBlocked: "chan.recv_blocked", simrt.PSQLExec: "sql.exec", simrt.PFileReload: "", simrt.PFileReloadFail: "", simrt.PWatchLost: "fsnotify.watch_lost"}
+	simrt.PChanRecvBlocked: "chan.recv_blocked", simrt.PSQLExec: "sql.exec", simrt.PFileReload: "", simrt.PFileReloadFail: "", simrt.PWatchLost: "fsnotify.watch_lost", simrt.PInotifyOverflow: "fsnotify.queue_overflow"}
 
 // afterRun turns the way a simulation phase ended into findings.
 func (w *World) afterRun(rr simrt.RunResult) {
